@@ -221,8 +221,15 @@ def proof_obligations(pid, cfg, tier):
             first = next((l for l in out.splitlines() if "error" in l), out.strip()[-300:])
             problems.append("driver build failed: " + first.strip())
         if tier == "thorough":
+            # independent re-check (leanchecker) of every Props module the audit modules import
+            pms = []
             for mod in cfg["audit_modules"]:
-                pm = mod.replace(".Audit.", ".Props.")
+                src = os.path.join(LEAN, mod.replace(".", "/") + ".lean")
+                if os.path.exists(src):
+                    for pm in re.findall(r"^import (RodbusModel\.Props\.\S+)", open(src).read(), flags=re.M):
+                        if pm not in pms:
+                            pms.append(pm)
+            for pm in pms:
                 rc, out = run(["lake", "env", "leanchecker", pm], cwd=LEAN, timeout=1800)
                 if rc != 0:
                     problems.append(f"leanchecker {pm}: " + out.strip()[-200:])
